@@ -1,12 +1,19 @@
 // helperchild: the child program of the sh checks (C15).  No mage dependency.
 //
 // It is told what to do through environment variables (all optional):
-//   C15X_EXIT  decimal exit code (default 0)
-//   C15X_OUT   hex bytes to write to stdout
-//   C15X_ERR   hex bytes to write to stderr
-//   C15X_SIG   decimal signal number: after writing, kill itself with it
-//   C15X_DUMP  path: write a JSON report there (argv, environment, stdin digest, what it is
-//              about to do) BEFORE writing the payloads / exiting
+//
+//	C15X_EXIT  decimal exit code (default 0)
+//	C15X_OUT   hex bytes to write to stdout
+//	C15X_ERR   hex bytes to write to stderr
+//	C15X_SIG   decimal signal number: after writing, kill itself with it
+//	C15X_DUMP  path: write a JSON report there (argv, environment, stdin digest, what it is
+//	           about to do) BEFORE writing the payloads / exiting
+//	C15X_BG    decimal milliseconds: before exiting, start a detached DESCENDANT (this program
+//	           re-executed with C15X_ROLE=late) that outlives the child, sleeps that long, then
+//	           writes C15X_LATE_OUT (hex) to the inherited stdout and C15X_LATE_ERR (hex) to the
+//	           inherited stderr (a stream whose late payload is empty is NOT inherited), then
+//	           creates the file C15X_BG_DONE
+//
 // Everything in the report is hex-encoded, the program never interprets its argv.
 package main
 
@@ -16,6 +23,7 @@ import (
 	"encoding/json"
 	"io/ioutil"
 	"os"
+	"os/exec"
 	"strconv"
 	"syscall"
 	"time"
@@ -30,9 +38,34 @@ type report struct {
 	Sig      int      `json:"sig"`
 	Out      string   `json:"out"` // hex
 	Err      string   `json:"err"` // hex
+	BgMs     int      `json:"bg_ms"`
+	LateOut  string   `json:"late_out"` // hex: written by the descendant to the inherited stdout
+	LateErr  string   `json:"late_err"` // hex
+}
+
+func late() {
+	ms, _ := strconv.Atoi(os.Getenv("C15X_BG"))
+	out, _ := hex.DecodeString(os.Getenv("C15X_LATE_OUT"))
+	errb, _ := hex.DecodeString(os.Getenv("C15X_LATE_ERR"))
+	time.Sleep(time.Duration(ms) * time.Millisecond)
+	if len(out) > 0 {
+		os.Stdout.Write(out)
+	}
+	if len(errb) > 0 {
+		os.Stderr.Write(errb)
+	}
+	os.Stdout.Close()
+	os.Stderr.Close()
+	if p := os.Getenv("C15X_BG_DONE"); p != "" {
+		ioutil.WriteFile(p, []byte("done"), 0644)
+	}
+	os.Exit(0)
 }
 
 func main() {
+	if os.Getenv("C15X_ROLE") == "late" {
+		late()
+	}
 	exit, _ := strconv.Atoi(os.Getenv("C15X_EXIT"))
 	sig, _ := strconv.Atoi(os.Getenv("C15X_SIG"))
 	out, _ := hex.DecodeString(os.Getenv("C15X_OUT"))
@@ -51,6 +84,10 @@ func main() {
 		r.StdinLen = len(in)
 		r.Exit, r.Sig = exit, sig
 		r.Out, r.Err = hex.EncodeToString(out), hex.EncodeToString(errb)
+		r.BgMs, _ = strconv.Atoi(os.Getenv("C15X_BG"))
+		if r.BgMs > 0 {
+			r.LateOut, r.LateErr = os.Getenv("C15X_LATE_OUT"), os.Getenv("C15X_LATE_ERR")
+		}
 		b, _ := json.Marshal(r)
 		if err := ioutil.WriteFile(p+".tmp", b, 0644); err == nil {
 			os.Rename(p+".tmp", p)
@@ -58,6 +95,21 @@ func main() {
 	}
 	os.Stdout.Write(out)
 	os.Stderr.Write(errb)
+	if bg, _ := strconv.Atoi(os.Getenv("C15X_BG")); bg > 0 {
+		self, err := os.Executable()
+		if err == nil {
+			c := exec.Command(self)
+			c.Env = append(os.Environ(), "C15X_ROLE=late")
+			if os.Getenv("C15X_LATE_OUT") != "" {
+				c.Stdout = os.Stdout
+			}
+			if os.Getenv("C15X_LATE_ERR") != "" {
+				c.Stderr = os.Stderr
+			}
+			c.SysProcAttr = &syscall.SysProcAttr{Setsid: true}
+			c.Start() // not waited for: it outlives this process
+		}
+	}
 	if sig != 0 {
 		syscall.Kill(os.Getpid(), syscall.Signal(sig))
 		time.Sleep(20 * time.Second)
